@@ -304,7 +304,7 @@ class World:
         self.apphost = helper
         self.wsgi_app = helper.app
         W.EvThreadWorker._w3 = W.W3State()
-        self.worker_class = W.gevent_worker_class() if kind == "gevent" else {"sync": W.EvSyncWorker, "gthread": W.EvThreadWorker}[kind]
+        self.worker_class = W.worker_class(kind)
         return helper
 
     def script_for(self, age):
